@@ -28,6 +28,10 @@ pub struct LefSwarm {
     pub masks: bool,
     pub max_macros: u64,
     pub max_pins: u64,
+    /// line ends: 0 = LF, 1 = CRLF, 2 = mixed (LF, CRLF and a lone CR before LF-terminated lines)
+    pub eol: u8,
+    /// text after END LIBRARY
+    pub trailer: u8,
 }
 impl LefSwarm {
     pub fn draw(t: &mut Tape, allow_utf8: bool) -> Self {
@@ -53,6 +57,8 @@ impl LefSwarm {
             masks: t.chance(1, 3),
             max_macros: *t.pick(&[0, 1, 1, 2, 3]),
             max_pins: *t.pick(&[0, 1, 2, 4]),
+            eol: *t.pick(&[0u8, 0, 0, 0, 0, 0, 1, 2]),
+            trailer: *t.pick(&[0u8, 0, 0, 0, 0, 0, 0, 1, 2, 3]),
         }
     }
     fn old(&self) -> bool {
@@ -94,6 +100,7 @@ impl<'a> W<'a> {
                 0 => self.out.push_str("  "),
                 1 => self.out.push('\t'),
                 2 => self.out.push_str("\n    "),
+                3 if self.t.chance(1, 4) => self.out.push_str(" \x0c "),
                 _ => self.out.push(' '),
             }
         } else {
@@ -109,7 +116,15 @@ impl<'a> W<'a> {
             let c = if self.sw.utf8_comments && self.t.chance(1, 2) { *self.t.pick(&[" # commentaire é à ü", " # 日本語のコメント", " # emoji 😀 ok", " # ß"]) } else { *self.t.pick(&[" # a comment", " # END LIBRARY", " #", " # ; MACRO x"]) };
             self.out.push_str(c);
         }
-        self.out.push('\n');
+        match self.sw.eol {
+            1 => self.out.push_str("\r\n"),
+            2 => match self.t.draw(4) {
+                0 => self.out.push_str("\r\n"),
+                1 => self.out.push_str(" \r \n"),
+                _ => self.out.push('\n'),
+            },
+            _ => self.out.push('\n'),
+        }
     }
     fn name(&mut self, prefix: &str) -> String {
         // sometimes the same name again (neighbouring blocks on one layer, a pin named like another, ...)
@@ -869,6 +884,13 @@ impl<'a> W<'a> {
             self.kw("END");
             self.kw("LIBRARY");
             self.nl();
+            // what follows the logical end of the file
+            match self.sw.trailer {
+                1 => self.out.push_str("\n\n# trailing comment after the end\n\n"),
+                2 => self.out.push_str("   \t \n \n"),
+                3 => self.out.push_str("MACRO after_the_end\n  SIZE 1 BY 1 ;\nEND after_the_end\n"),
+                _ => {}
+            }
         }
     }
 }
